@@ -96,7 +96,11 @@ class MTSPEnv(RL4COEnvBase):
         available[..., 0] = torch.logical_or(done, available[..., 0])
 
         # Update the current length
-        current_length = td["current_length"] + get_distance(cur_loc, prev_loc)
+        # nothing is driven once the episode has finished (padding steps of finished instances)
+        was_done = td["done"].reshape(current_node.shape)
+        current_length = td["current_length"] + torch.where(
+            was_done, 0.0, get_distance(cur_loc, prev_loc)
+        )
 
         # If done, we add the distance from the current_node to the depot as well
         current_length = torch.where(
